@@ -10,6 +10,7 @@ sed -i "s#path = \"/repo\"#path = \"$VP_RUN_REPO\"#" sim/Cargo.toml fine/Cargo.t
 cp "$VP_RUN_REPO/Cargo.lock" /dev/null 2>&1
 for id in "$@"; do
   P=/tmp/seed${R}_$id/OUT/patch.diff
+  [ -f "$P" ] || P="$PWD/seeded/$id-$R/patch.diff"
   echo "== $id-$R"
   if ! (cd "$VP_RUN_REPO" && git apply "$P"); then echo "does not apply"; continue; fi
   out=$(./check "$id" quick 2>&1); rc=$?
